@@ -10,6 +10,23 @@ import (
 	"golang.org/x/tools/go/types/typeutil"
 )
 
+// astFamily describes one AST with its parser and printers (TL1: qtpl printers; TL2: the Print methods).
+type astFamily struct {
+	structs      map[string]bool
+	parserFiles  map[string]bool
+	printerFiles map[string]bool
+	isPrinter    func(fn *types.Func) bool // printer functions inside printerFiles
+	isReference  func(fn *types.Func) bool // the printers the round trip goes through
+}
+
+var tl1Family = &astFamily{
+	structs:      astStructs,
+	parserFiles:  map[string]bool{"tlparser_code.go": true, "tlparser_typeref.go": true},
+	printerFiles: map[string]bool{"qt_tlparser.qtpl.go": true, "qt_combined2tl.qtpl.go": true},
+	isPrinter:    func(fn *types.Func) bool { return strings.HasPrefix(strings.ToLower(fn.Name()), "stream") },
+	isReference:  func(fn *types.Func) bool { return fn.Name() == "StreamString" },
+}
+
 // printerBody is a piece of printing code that prints one value of an AST struct type: a method body with its
 // receiver, or the body of a range loop with its value variable.
 type printerBody struct {
@@ -198,7 +215,7 @@ func firstMentionOrder(info *types.Info, v types.Object, stmts []ast.Stmt) []str
 }
 
 // printerBodies enumerates the printing code of the printer files of internal/tlast.
-func printerBodies(r *repoCtx) []*printerBody {
+func printerBodies(r *repoCtx, fam *astFamily) []*printerBody {
 	var out []*printerBody
 	for _, name := range sortedKeys(r.funcs) {
 		fi := r.funcs[name]
@@ -206,16 +223,13 @@ func printerBodies(r *repoCtx) []*printerBody {
 			continue
 		}
 		file := filepath.Base(r.co.Fset.Position(fi.Decl.Pos()).Filename)
-		if file != "qt_tlparser.qtpl.go" && file != "qt_combined2tl.qtpl.go" {
-			continue
-		}
-		if !strings.HasPrefix(strings.ToLower(fi.Obj.Name()), "stream") {
+		if !fam.printerFiles[file] || !fam.isPrinter(fi.Obj) {
 			continue
 		}
 		info := fi.Pkg.TypesInfo
 		if len(fi.Decl.Recv.List) == 1 && len(fi.Decl.Recv.List[0].Names) == 1 {
 			rv := info.Defs[fi.Decl.Recv.List[0].Names[0]]
-			if s := namedStructName(rv.Type()); astStructs[s] {
+			if s := namedStructName(rv.Type()); fam.structs[s] {
 				out = append(out, &printerBody{name: fi.Name(), strct: s, v: rv, stmts: fi.Decl.Body.List, fi: fi, isMeth: true})
 			}
 		}
@@ -228,7 +242,7 @@ func printerBodies(r *repoCtx) []*printerBody {
 			if !ok || info.Defs[id] == nil {
 				return true
 			}
-			if s := namedStructName(info.Defs[id].Type()); astStructs[s] {
+			if s := namedStructName(info.Defs[id].Type()); fam.structs[s] {
 				out = append(out, &printerBody{name: fi.Name() + "/range " + s, strct: s, v: info.Defs[id], stmts: rs.Body.List, fi: fi})
 			}
 			return true
@@ -239,8 +253,26 @@ func printerBodies(r *repoCtx) []*printerBody {
 
 // emissionEvents: the fields of v in the order in which the printing code emits text that depends on them. A statement
 // that mentions fields is one event; a conditional whose branches emit nothing that depends on v is one event for the
-// fields of its condition (`if f.Excl { "!" }`); a range over a field is an event for that field.
-func emissionEvents(info *types.Info, v types.Object, stmts []ast.Stmt) [][]string {
+// fields of its condition (`if f.Excl { "!" }`); a range over a field is an event for that field. Each event carries
+// the branches it sits in, so that events of mutually exclusive branches are not ordered against each other.
+type emission struct {
+	fields []string
+	path   []string // "<if position>:then" / ":else" / "<switch position>:<clause index>"
+}
+
+func (e emission) exclusiveWith(o emission) bool {
+	for _, a := range e.path {
+		for _, b := range o.path {
+			ai, bi := strings.LastIndex(a, ":"), strings.LastIndex(b, ":")
+			if a[:ai] == b[:bi] && a[ai:] != b[bi:] {
+				return true
+			}
+		}
+	}
+	return false
+}
+
+func emissionEvents(info *types.Info, v types.Object, stmts []ast.Stmt) []emission {
 	strip := func(l []string) []string {
 		var o []string
 		for _, x := range l {
@@ -250,48 +282,49 @@ func emissionEvents(info *types.Info, v types.Object, stmts []ast.Stmt) [][]stri
 		}
 		return o
 	}
-	var rec func(stmts []ast.Stmt) [][]string
-	rec = func(stmts []ast.Stmt) [][]string {
-		var out [][]string
+	var rec func(stmts []ast.Stmt, path []string) []emission
+	rec = func(stmts []ast.Stmt, path []string) []emission {
+		var out []emission
+		add := func(f []string) {
+			if len(f) > 0 {
+				out = append(out, emission{f, append([]string(nil), path...)})
+			}
+		}
 		for _, st := range stmts {
 			switch st := st.(type) {
 			case *ast.IfStmt:
-				sub := rec(st.Body.List)
+				id := fmt.Sprint(st.Pos())
+				sub := rec(st.Body.List, append(path[:len(path):len(path)], id+":then"))
 				switch e := st.Else.(type) {
 				case *ast.BlockStmt:
-					sub = append(sub, rec(e.List)...)
+					sub = append(sub, rec(e.List, append(path[:len(path):len(path)], id+":else"))...)
 				case *ast.IfStmt:
-					sub = append(sub, rec([]ast.Stmt{e})...)
+					sub = append(sub, rec([]ast.Stmt{e}, append(path[:len(path):len(path)], id+":else"))...)
 				}
 				if len(sub) == 0 {
-					if f := strip(readsOf(info, v, st.Cond)); len(f) > 0 {
-						out = append(out, f)
-					}
+					add(strip(readsOf(info, v, st.Cond)))
 				} else {
 					out = append(out, sub...)
 				}
 			case *ast.RangeStmt:
-				if f := strip(readsOf(info, v, st.X)); len(f) > 0 {
-					out = append(out, f)
-				}
-				out = append(out, rec(st.Body.List)...)
+				add(strip(readsOf(info, v, st.X)))
+				out = append(out, rec(st.Body.List, path)...)
 			case *ast.ForStmt:
-				out = append(out, rec(st.Body.List)...)
+				out = append(out, rec(st.Body.List, path)...)
 			case *ast.BlockStmt:
-				out = append(out, rec(st.List)...)
+				out = append(out, rec(st.List, path)...)
 			case *ast.SwitchStmt:
-				for _, cc := range st.Body.List {
-					out = append(out, rec(cc.(*ast.CaseClause).Body)...)
+				id := fmt.Sprint(st.Pos())
+				for i, cc := range st.Body.List {
+					out = append(out, rec(cc.(*ast.CaseClause).Body, append(path[:len(path):len(path)], fmt.Sprintf("%s:%d", id, i)))...)
 				}
 			default:
-				if f := strip(readsOf(info, v, st)); len(f) > 0 {
-					out = append(out, f)
-				}
+				add(strip(readsOf(info, v, st)))
 			}
 		}
 		return out
 	}
-	return rec(stmts)
+	return rec(stmts, nil)
 }
 
 func isTokenIterator(t types.Type) (named bool, ptr bool) {
@@ -308,7 +341,7 @@ func isTokenIterator(t types.Type) (named bool, ptr bool) {
 // parserFillSteps: for each AST struct, per parser function, the consumption step at which each field of a local of
 // that type is first assigned. A step is a call that advances the token iterator: a function that returns one, or a
 // pointer-receiver method of it.
-func parserFillSteps(r *repoCtx, pkg *types.Package) map[string]map[string]map[string]int {
+func parserFillSteps(r *repoCtx, pkg *types.Package, fam *astFamily) map[string]map[string]map[string]int {
 	out := map[string]map[string]map[string]int{}
 	for _, name := range sortedKeys(r.funcs) {
 		fi := r.funcs[name]
@@ -316,7 +349,7 @@ func parserFillSteps(r *repoCtx, pkg *types.Package) map[string]map[string]map[s
 			continue
 		}
 		file := filepath.Base(r.co.Fset.Position(fi.Decl.Pos()).Filename)
-		if file != "tlparser_code.go" && file != "tlparser_typeref.go" {
+		if !fam.parserFiles[file] {
 			continue
 		}
 		info := fi.Pkg.TypesInfo
@@ -375,7 +408,7 @@ func parserFillSteps(r *repoCtx, pkg *types.Package) map[string]map[string]map[s
 				return
 			}
 			s := namedStructName(obj.Type())
-			if !astStructs[s] {
+			if !fam.structs[s] {
 				return
 			}
 			first, last := chain[len(chain)-1], chain[0]
@@ -420,16 +453,22 @@ func parserFillSteps(r *repoCtx, pkg *types.Package) map[string]map[string]map[s
 
 // printerOrderFollowsParser (C21): when the parser fills field F at an earlier consumption step than field G, the
 // reference printer of the struct does not emit G's text before F's (the grammar is read left to right).
-func printerOrderFollowsParser(c *Check, r *repoCtx, pkg *types.Package) {
-	steps := parserFillSteps(r, pkg)
-	for _, pb := range printerBodies(r) {
-		if !pb.isMeth || pb.fi.Obj.Name() != "StreamString" {
+func printerOrderFollowsParser(c *Check, r *repoCtx, pkg *types.Package, fam *astFamily) {
+	printerOrderFollowsParserRule(c, r, pkg, fam, "printer/field-order-follows-parser")
+}
+
+func printerOrderFollowsParserRule(c *Check, r *repoCtx, pkg *types.Package, fam *astFamily, rule string) {
+	steps := parserFillSteps(r, pkg, fam)
+	for _, pb := range printerBodies(r, fam) {
+		if !pb.isMeth || !fam.isReference(pb.fi.Obj) {
 			continue
 		}
 		evs := emissionEvents(pb.fi.Pkg.TypesInfo, pb.v, pb.stmts)
 		rank := map[string]int{}
+		var order [][]string
 		for i, e := range evs {
-			for _, f := range e {
+			order = append(order, e.fields)
+			for _, f := range e.fields {
 				if _, ok := rank[f]; !ok {
 					rank[f] = i
 				}
@@ -449,13 +488,13 @@ func printerOrderFollowsParser(c *Check, r *repoCtx, pkg *types.Package) {
 			ok, why := true, ""
 			for _, f := range common {
 				for _, g := range common {
-					if st[f] < st[g] && rank[f] > rank[g] {
+					if st[f] < st[g] && rank[f] > rank[g] && !evs[rank[f]].exclusiveWith(evs[rank[g]]) {
 						ok = false
 						why = fmt.Sprintf("%s is parsed before %s but printed after it", f, g)
 					}
 				}
 			}
-			c.Ob("printer/field-order-follows-parser", pb.name+"~"+pf, ok, r.pos(pb.fi.Decl.Pos()), fmt.Sprintf("emission order %v; %s fills at steps %v %s", evs, pf, st, why))
+			c.Ob(rule, pb.name+"~"+pf, ok, r.pos(pb.fi.Decl.Pos()), fmt.Sprintf("emission order %v; %s fills at steps %v %s", order, pf, st, why))
 		}
 	}
 }
@@ -463,7 +502,7 @@ func printerOrderFollowsParser(c *Check, r *repoCtx, pkg *types.Package) {
 // printerSiblingsConsultSameFields (C25, C23): a field that the reference printer of a struct consults on every path must be
 // consulted on every path by any other printer of that struct that prints it at all.
 func printerSiblingsConsultSameFields(c *Check, r *repoCtx, rule string, all bool, only func(pb *printerBody) bool) {
-	bodies := printerBodies(r)
+	bodies := printerBodies(r, tl1Family)
 	ref := map[string]fieldSet{}
 	for _, pb := range bodies {
 		if pb.isMeth && pb.fi.Obj.Name() == "StreamString" {
